@@ -174,7 +174,9 @@ def gen_two_hap(rng, t, unprefixed=False):
     """Two haplotypes in one map; returns (input scaffolds, pretext, design).
     unprefixed: also input scaffolds whose names carry no haplotype prefix (expected in the primary assembly)."""
     inp = []
-    for h in ("HAP1", "HAP2"):
+    # haplotype names: usually HAP1/HAP2, sometimes names without a trailing digit (trio binning)
+    H1, H2 = rng.choice([("HAP1", "HAP2"), ("HAP1", "HAP2"), ("HAP1", "HAP2"), ("MAT", "PAT"), ("hapA", "hapB")])
+    for h in (H1, H2):
         scs, _ = gasm.gen_input(rng, t, n_scaff=rng.randint(2, 6), mode="fasta", max_texels=60)
         for k, s in enumerate(scs):
             nm = f"{h}_SCAFFOLD_{k + 1}"
@@ -198,14 +200,15 @@ def gen_two_hap(rng, t, unprefixed=False):
         gone = {n for n in extra_names if rng.random() < 0.5}
         pieces = [p for p in pieces if p["s"] not in gone]
     big = lambda p: core_has_bases(by_name, p, t) and (p["end"] - p["start"] + 1) > 8 * (1 + int(t))  # noqa: E731
-    p1 = [p for p in pieces if p["s"].startswith("HAP1") and big(p)]
-    p2 = [p for p in pieces if p["s"].startswith("HAP2") and big(p)]
+    p1 = [p for p in pieces if p["s"].startswith(H1 + "_") and big(p)]
+    p2 = [p for p in pieces if p["s"].startswith(H2 + "_") and big(p)]
     small = [p for p in pieces if p not in p1 and p not in p2]
     group_tags = ["X", "Z", "W", "B1"]
     rng.shuffle(group_tags)
     rng.shuffle(p1)
     rng.shuffle(p2)
-    tagcase = rng.choice([("Hap1", "Hap2"), ("HAP1", "HAP2"), ("hap1", "hap2")])
+    spell = rng.choice([str.upper, str.lower, str.capitalize, lambda x: x])
+    tagcase = (spell(H1), spell(H2))
     use_tags = rng.random() < 0.7
     primary = rng.random() < 0.25
     prefix = rng.choice(["SUPER_", "SUPER_", "CHR"])
@@ -227,7 +230,7 @@ def gen_two_hap(rng, t, unprefixed=False):
         # first piece localised, later pieces may be unlocs
         for hap, grp in [(0, g1)] + [(1, g) for g in h2s]:
             row_tags = {0: []}
-            if use_tags or not grp[0]["s"].startswith("HAP1" if hap == 0 else "HAP2"):
+            if use_tags or not grp[0]["s"].startswith((H1 if hap == 0 else H2) + "_"):
                 row_tags[0].append(tagcase[hap])
             if hap == 0 and not h2s:
                 row_tags[0].append("Singleton")
@@ -248,7 +251,7 @@ def gen_two_hap(rng, t, unprefixed=False):
         return None
     # the rest: unpainted, one piece each
     for pc in p1 + p2 + small:
-        hap = 0 if pc["s"].startswith("HAP1") else 1
+        hap = 0 if pc["s"].startswith(H1 + "_") else 1
         pc["kind"], pc["expect"] = "unpainted", ("hap1", "hap2")[hap]
         if pc["s"] in extra_names:
             pc["expect"] = "none"
@@ -272,8 +275,11 @@ def gen_two_hap(rng, t, unprefixed=False):
         labels.add("tag:primary")
     if not use_tags:
         labels.add("tag:haplotype-from-names-only")
+    if H1 != "HAP1":
+        labels.add("tag:haplotype-names-without-digit" if H1 == "MAT" else "tag:haplotype-names-mixed-case")
     return inp, pt, {
         "haps": list(tagcase),
+        "hap_prefixes": [H1, H2],
         "primary": primary,
         "prefix": prefix,
         "target_mode": False,
